@@ -7,6 +7,8 @@ import (
 	"regexp"
 	"sort"
 	"strings"
+	"unicode"
+	"unicode/utf8"
 	"verifsim/simrt"
 
 	"pgregory.net/rapid"
@@ -745,7 +747,7 @@ func (p c20) Nontrivial(c *Case, outs []*Out) bool {
 // diffClass classifies how two texts of one declaration differ: only in
 // pointer placement, or by naming a type that the file it comes from never
 // declares (a declaration that was still being built when it was referenced).
-var aliasDecl = regexp.MustCompile(`(?m)^type \w+ = [\w.]+$`)
+var aliasDecl = regexp.MustCompile(`(?m)^type [\p{L}\p{N}_]+ = [\p{L}\p{N}_.]+$`)
 
 func diffClass(a, b string, fa, fb *GoFile) string {
 	if strings.ReplaceAll(a, "*", "") == strings.ReplaceAll(b, "*", "") {
@@ -758,7 +760,7 @@ func diffClass(a, b string, fa, fb *GoFile) string {
 		}
 		return ":alias-vs-copy"
 	}
-	if typeIdent.ReplaceAllString(a, "T") == typeIdent.ReplaceAllString(b, "T") {
+	if replaceTypeIdents(a) == replaceTypeIdents(b) {
 		// the two texts differ only in which (generated) type names they mention
 		la, lb := strings.Split(a, "\n"), strings.Split(b, "\n")
 		for i := 0; i < len(la) && i < len(lb); i++ {
@@ -768,7 +770,7 @@ func diffClass(a, b string, fa, fb *GoFile) string {
 		}
 		// ... and if every name that differs is a DERIVED one (named after the property path that reached an inline or
 		// per-branch type first), say so
-		ia, ib := typeIdent.FindAllString(a, -1), typeIdent.FindAllString(b, -1)
+		ia, ib := typeIdents(a), typeIdents(b)
 		derived := len(ia) == len(ib)
 		for i := 0; derived && i < len(ia); i++ {
 			if ia[i] != ib[i] && !(derivedName.MatchString(ia[i]) && derivedName.MatchString(ib[i])) {
@@ -805,7 +807,55 @@ func derivedOnly(keys []string) string {
 // multiCompositionWorld is set by Eval for the case being judged.
 var multiCompositionWorld bool
 
-var typeIdent = regexp.MustCompile(`\b[A-Z][A-Za-z0-9_]*\b`)
+// typeIdents: the identifiers of a text that start with an upper-case letter (exported Go names: the generated type
+// names among them). Letters are Unicode letters - definition names may hold U+0130 and the like (the first version
+// used \b[A-Z][A-Za-z0-9_]*\b, cut such names in two, and so failed to recognise a known finding in the thorough
+// tier: a false alarm, corrected here).
+func scanIdents(s string, fn func(start, end int, upper bool)) {
+	start := -1
+	isID := func(r rune) bool { return r == '_' || unicode.IsLetter(r) || unicode.IsDigit(r) }
+	for i, r := range s {
+		if isID(r) {
+			if start < 0 {
+				start = i
+			}
+			continue
+		}
+		if start >= 0 {
+			first, _ := utf8.DecodeRuneInString(s[start:])
+			fn(start, i, unicode.IsUpper(first))
+			start = -1
+		}
+	}
+	if start >= 0 {
+		first, _ := utf8.DecodeRuneInString(s[start:])
+		fn(start, len(s), unicode.IsUpper(first))
+	}
+}
+
+func typeIdents(s string) []string {
+	var out []string
+	scanIdents(s, func(a, b int, up bool) {
+		if up {
+			out = append(out, s[a:b])
+		}
+	})
+	return out
+}
+
+func replaceTypeIdents(s string) string {
+	var sb strings.Builder
+	last := 0
+	scanIdents(s, func(a, b int, up bool) {
+		if up {
+			sb.WriteString(s[last:a])
+			sb.WriteString("T")
+			last = b
+		}
+	})
+	sb.WriteString(s[last:])
+	return sb.String()
+}
 
 func mentionsUnresolved(line string, f *GoFile) bool {
 	if f == nil {
@@ -892,7 +942,7 @@ func lineDiff(a, b string) string {
 	return strings.Join(out, "; ")
 }
 
-var unmarshalerKey = regexp.MustCompile(`^func \(\*?\w+\) Unmarshal(JSON|YAML)$`)
+var unmarshalerKey = regexp.MustCompile(`^func \(\*?[\p{L}\p{N}_]+\) Unmarshal(JSON|YAML)$`)
 
 // unmarshalerOnly: the listed declarations are all generated unmarshal methods.
 func unmarshalerOnly(keys []string) string {
